@@ -460,6 +460,9 @@ Proof.
     + apply gstep_rel. exact H1.
 Qed.
 
+Lemma grun_rel0 ops s g : balanced ops -> Forall2 (grel ops) (grun ops s g) g.
+Proof. intros H. apply (grun_rel ops s g 0 0 H). Qed.
+
 (* ------------------------------------------------------------------ the ball layer *)
 Lemma ball_bind_at tc r v s : ball (bind_at tc r v s) = ball s.
 Proof. unfold bind_at. destruct (nth r (heap s) (Some (VInt 0))); reflexivity. Qed.
@@ -524,11 +527,13 @@ Proof.
   intros HI Hb. unfold after_failure.
   set (gl0 := {| g_snap := s; g_puts := []; g_bputs := [] |}).
   pose proof (Inv_step s g Try HI) as H1. change (gstep s g Try) with (gl0 :: g) in H1.
-  pose proof (grun_rel ops (step s Try) (gl0 :: g) 0 0 Hb) as HR. simpl skipn in HR.
+  pose proof (grun_rel0 ops (step s Try) (gl0 :: g) Hb) as HR.
   pose proof (Inv_run ops _ _ H1) as H2.
-  destruct (grun ops (step s Try) (gl0 :: g)) as [|gl g2'] eqn:Hg; [inversion HR|].
+  remember (grun ops (step s Try) (gl0 :: g)) as g2 eqn:Hg. clear Hg.
+  destruct g2 as [|gl g2']; [inversion HR|].
   pose proof (Inv_step _ _ Trust H2) as HT. simpl gstep in HT.
-  inversion HR as [|? ? ? ? Hrel Hrest Ea Eb]; subst.
+  assert (Hrel : grel ops gl gl0) by (inversion HR; auto).
+  assert (Hrest : Forall2 (grel ops) g2' g) by (inversion HR; auto). clear HR.
   destruct Hrel as (Hsn & Hpu & Hbp). simpl in Hsn, Hpu, Hbp.
   remember (run ops (step s Try)) as s1 eqn:Hs1.
   destruct (stack s1) as [|c st] eqn:Hst.
@@ -545,4 +550,73 @@ Proof.
   - exists g2'. split. { exact HT. }
     clear - Hrest. induction Hrest as [|a b l1 l2 Hab H IH]; simpl; auto.
     destruct Hab as (E & _). rewrite E, IH. reflexivity.
+Qed.
+
+(* ------------------------------------------------------------------ corollaries in the shape of the property *)
+Lemma undo_restores_l s g ops a :
+  Inv s g -> balanced ops -> nth a (heap (after_failure ops s)) None = nth a (heap s) None.
+Proof. intros HI Hb. destruct (undo_all s g ops HI Hb) as (H & _). rewrite H. reflexivity. Qed.
+
+Lemma young_cells_discarded_l s g ops :
+  Inv s g -> balanced ops -> length (heap (after_failure ops s)) = length (heap s).
+Proof. intros HI Hb. destruct (undo_all s g ops HI Hb) as (H & _). rewrite H. reflexivity. Qed.
+
+Lemma bound_before_unchanged_l s g ops a v :
+  Inv s g -> balanced ops -> nth a (heap s) None = Some v -> nth a (heap (after_failure ops s)) None = Some v.
+Proof. intros HI Hb Hv. rewrite (undo_restores_l s g ops a HI Hb). exact Hv. Qed.
+
+Lemma unbound_before_unbound_again_l s g ops a :
+  Inv s g -> balanced ops -> nth a (heap s) None = None -> nth a (heap (after_failure ops s)) None = None.
+Proof. intros HI Hb Hv. rewrite (undo_restores_l s g ops a HI Hb). exact Hv. Qed.
+
+Lemma registers_restored_l s g ops :
+  Inv s g -> balanced ops -> trail (after_failure ops s) = trail s /\ stack (after_failure ops s) = stack s.
+Proof. intros HI Hb. destruct (undo_all s g ops HI Hb) as (_ & H1 & H2 & _). auto. Qed.
+
+Lemma resolve_ext s s' : heap s = heap s' -> forall fuel a, resolve fuel s a = resolve fuel s' a.
+Proof.
+  intros H fuel. induction fuel as [|f IH]; intros a; simpl; auto.
+  unfold root. rewrite H. destruct (nth _ (heap s') None) as [[n|b|g b]|]; auto. rewrite IH. reflexivity.
+Qed.
+
+Lemma observation_restored_l s g ops fuel a :
+  Inv s g -> balanced ops -> resolve fuel (after_failure ops s) a = resolve fuel s a.
+Proof. intros HI Hb. apply resolve_ext. destruct (undo_all s g ops HI Hb) as (H & _). exact H. Qed.
+
+Lemma bb_b_put_reverts_l s g ops k :
+  Inv s g -> balanced ops -> has_put k ops = false -> visible (after_failure ops s) k = visible s k.
+Proof.
+  intros HI Hb Hp. destruct (undo_all s g ops HI Hb) as (_ & _ & _ & H4 & _ & H6 & _).
+  unfold visible. rewrite (H4 k Hp), H6, (ball_run_noput k ops s Hp). reflexivity.
+Qed.
+
+Lemma bb_put_persists_l s g ops k :
+  Inv s g -> balanced ops -> k < length (ball s) -> nth k (loc s) None = None -> has_bput k ops = false ->
+  visible (after_failure ops s) k = last_put k ops (nth k (ball s) None).
+Proof.
+  intros HI Hb Hk Hn Hp. destruct (undo_all s g ops HI Hb) as (_ & _ & _ & _ & H5 & H6 & _).
+  unfold visible. rewrite (H5 k Hp Hn), H6. apply ball_run_last. exact Hk.
+Qed.
+
+Lemma bb_put_ball_persists_l s g ops :
+  Inv s g -> balanced ops -> ball (after_failure ops s) = ball (run ops s).
+Proof. intros HI Hb. destruct (undo_all s g ops HI Hb) as (_ & _ & _ & _ & _ & H6 & _). exact H6. Qed.
+
+Lemma reachable_Inv ops0 s0 : stack s0 = [] -> Inv (run ops0 s0) (grun ops0 s0 []).
+Proof. intros H. apply Inv_run. apply Inv_empty. exact H. Qed.
+
+Lemma undo_restores_reachable_l ops0 s0 ops :
+  stack s0 = [] -> balanced ops ->
+  heap (after_failure ops (run ops0 s0)) = heap (run ops0 s0).
+Proof.
+  intros H Hb. destruct (undo_all _ _ ops (reachable_Inv ops0 s0 H) Hb) as (H1 & _). exact H1.
+Qed.
+
+(* failure after failure: the invariant survives, so the next enclosing choice point restores its own snapshot *)
+Lemma failure_chain_l s g ops1 ops2 :
+  Inv s g -> balanced ops1 -> balanced ops2 ->
+  heap (after_failure ops2 (after_failure ops1 s)) = heap s.
+Proof.
+  intros HI H1 H2. destruct (undo_all s g ops1 HI H1) as (E1 & _ & _ & _ & _ & _ & g' & HI' & _).
+  destruct (undo_all _ g' ops2 HI' H2) as (E2 & _). rewrite E2. exact E1.
 Qed.
